@@ -81,7 +81,13 @@ def gen_case(rng, idx, seed):
             "shape": [] if rng.random() < 0.6 else [3], "parameter": bool(rng.random() < 0.7),
             "bij_arg": float(np.round(rng.uniform(0.5, 3.0), 2)), "bij_arg_is_var": bool(rng.random() < 0.5),
             "x64": bool(idx % 4 == 0), "failed_first": str(rng.choice(["none", "none", "instance_with_args", "class_without_args", "bad_kwarg"])),
-            "via_root": bool(rng.random() < 0.5), "copy_phase": bool(rng.random() < 0.5)}
+            "via_root": bool(rng.random() < 0.5), "copy_phase": bool(rng.random() < 0.5),
+            # the initial value as the user wrote it: a float array, a Python float / list, or integer-valued (10, np.array([3, 10]))
+            "init": str(rng.choice(["array", "array", "pyfloat", "int"])) if grp != "unit" else str(rng.choice(["array", "pyfloat"])),
+            # a second change of variables applied to the new variable (x = b1(b2(z)))
+            # (only after Var.transform: the deprecated GraphBuilder.transform has already collected the nodes of the variable)
+            "chain2": str(rng.choice(["none", "none", "instance", "class"])) if entry.startswith("var_") else "none",
+            "chain2_scale": float(rng.choice([0.5, 2.0, 3.0]))}
 
 
 def support_value(rng, fam, shape, args=None):
@@ -124,7 +130,39 @@ def run_case(case):
                 dargs[k] = jnp.asarray(v, ft)
         Dist = getattr(tfd, fam)
         v0 = support_value(rng, fam, shape, case["args"])
-        var = lsl.Var(jnp.asarray(v0, ft), lsl.Dist(Dist, **dargs), name="x")
+        init = case.get("init", "array")
+        if init == "int":
+            v0 = np.asarray(rng.integers(1, 12, size=shape) if fam in POS else rng.integers(-3, 4, size=shape))
+            if fam == "Uniform":
+                init = "array"
+                v0 = support_value(rng, fam, shape, case["args"])
+        if init in ("pyfloat", "int") and x64:
+            # TFP converts untyped Python numbers to float32 whatever the x64 flag says: typed arrays only in x64 cases
+            init = "array"
+        if init == "int":
+            # admissible only where the bijector itself (TFP, without liesel) maps the integer value to a float
+            try:
+                probe_args = {k: jnp.asarray(v, ft) for k, v in case["args"].items()}
+                pb = {"default": lambda: Dist(**probe_args).experimental_default_event_space_bijector(),
+                      "Scale": lambda: tfb.Scale(scale=jnp.asarray(case["bij_arg"], ft)),
+                      "Shift": lambda: tfb.Shift(shift=jnp.asarray(case["bij_arg"], ft))}.get(
+                          bij, lambda: getattr(tfb, bij)())()
+                probe = pb.inverse(int(v0) if not shape else np.asarray(v0, np.int32))
+                if not jnp.issubdtype(jnp.asarray(probe).dtype, jnp.floating):
+                    raise TypeError("integer image")
+            except Exception:  # noqa: BLE001
+                init = "array"
+                v0 = support_value(rng, fam, shape, case["args"])
+                res.skip("the TFP bijector does not accept an integer-valued input")
+        if init == "int":
+            given = int(v0) if not shape else (np.asarray(v0, np.int32) if case["idx"] % 2 else np.asarray(v0, np.int64))
+            res.ev("integer_valued_initial_value")
+        elif init == "pyfloat":
+            given = float(v0) if not shape else [float(e) for e in v0]
+        else:
+            given = jnp.asarray(v0, ft)
+        var = lsl.Var(given, lsl.Dist(Dist, **dargs), name="x")
+        given0 = np.array(np.asarray(given), copy=True)
         var.parameter = case["parameter"]
         barg_var = None
         if bij in ("Scale", "Shift"):
@@ -148,7 +186,7 @@ def run_case(case):
             except Exception:  # noqa: BLE001
                 pass
             if (var.parameter != case["parameter"] or not var.has_dist or not var.strong
-                    or not np.array_equal(np.asarray(var.value), np.asarray(jnp.asarray(v0, ft)))):
+                    or not np.array_equal(np.asarray(var.value), given0)):
                 res.violation("changed-by-failed-transform", f"a failed Var.transform ({ff}) changed the variable: parameter="
                               f"{var.parameter} (was {case['parameter']}), has_dist={var.has_dist}, strong={var.strong}", w)
         with warnings.catch_warnings():
@@ -179,6 +217,19 @@ def run_case(case):
             elif entry == "gb_default":
                 tvar = gb.transform(var, None)
                 res.mon("entry_graphbuilder_transform")
+            chain2 = case.get("chain2", "none")
+            tmid = None
+            c2var = None
+            if chain2 != "none" and tvar is not None:
+                # the new variable is itself re-expressed: x = b1(u), u = c * z
+                tmid = tvar
+                c2 = case["chain2_scale"]
+                if chain2 == "instance":
+                    tvar = tmid.transform(tfb.Scale(jnp.asarray(c2, ft)))
+                else:
+                    c2var = lsl.Var(jnp.asarray(c2, ft), name="c2")
+                    tvar = tmid.transform(tfb.Scale, scale=c2var)
+                res.mon("second_transform_of_new_variable")
             if case.get("via_root", False):
                 # documented workflow: only the root is added; the (flagged / transformed) variable is found as its input
                 root = lsl.Var(lsl.Calc(lambda v_: v_ * 1.0, var), name="root")
@@ -205,6 +256,19 @@ def run_case(case):
             if bij == "Shift":
                 return tfb.Shift(shift=jnp.asarray(barg_var.value if barg_var is not None else case["bij_arg"], ft))
             return {"Exp": tfb.Exp, "Softplus": tfb.Softplus, "Sigmoid": tfb.Sigmoid, "Identity": tfb.Identity}[bij]()
+
+        oracle_b1 = oracle_bijector
+        if tmid is not None:
+            def oracle_bijector():  # noqa: F811
+                return tfb.Chain([oracle_b1(), tfb.Scale(jnp.asarray(case["chain2_scale"], ft))])
+
+            # the intermediate variable lost flag and distribution as well, and is the image of the newest one
+            if tmid.parameter or tmid.has_dist or not tmid.weak:
+                res.violation("parameter-flag", f"after the second transform the intermediate variable has parameter={tmid.parameter} "
+                              f"has_dist={tmid.has_dist} weak={tmid.weak}", w)
+            if tmid.name not in model.vars or tvar.name not in model.vars:
+                res.violation("chained-variable-missing", f"the model lacks the variables of the chained transformation: {sorted(model.vars)}", w)
+                return res
 
         # ---- structural clauses
         res.mon("parameter_flag_moved")
@@ -233,6 +297,9 @@ def run_case(case):
                     t = rng.normal(0, 1.5, size=shape)
                 else:
                     t = rng.normal(0, 1.5, size=shape)
+                if tmid is not None:
+                    # keep u = c*z in the range the float32 autodiff oracle resolves (sigmoid'(u) = s(1-s) cancels for u >> 1)
+                    t = t / case["chain2_scale"]
                 t = np.round(t, 3)
                 # re-assign a parameter variable now and then
                 if pvars and rng.random() < 0.3:
@@ -250,6 +317,12 @@ def run_case(case):
                 res.violation("original-not-image", f"point {j}: original = {got.tolist()} but b(new) = {np.asarray(img).tolist()} "
                               f"(t={np.asarray(t_now).tolist()})", w)
                 break
+            if tmid is not None:
+                gmid = np.asarray(tmid.value, np.float64)
+                emid = np.asarray(t_now, np.float64) * case["chain2_scale"]
+                if not np.allclose(gmid, emid, rtol=1e-9 if x64 else 2e-5, atol=1e-9 if x64 else 1e-6):
+                    res.violation("original-not-image", f"point {j}: intermediate variable = {gmid.tolist()} but c*z = {emid.tolist()}", w)
+                    break
             d = Dist(**{k: jnp.asarray(v, ft) for k, v in cur_args().items()})
             lp_orig = np.asarray(d.log_prob(img), np.float64)
             if shape:
@@ -300,6 +373,8 @@ def run_case(case):
                 b2 = tfb.Shift(shift=jnp.asarray(nb if nb is not None else case["bij_arg"], ft))
             else:
                 b2 = {"Exp": tfb.Exp, "Softplus": tfb.Softplus, "Sigmoid": tfb.Sigmoid, "Identity": tfb.Identity}[bij]()
+            if tmid is not None:
+                b2 = tfb.Chain([b2, tfb.Scale(jnp.asarray(case["chain2_scale"], ft))])
             img2 = np.asarray(b2.forward(t2), np.float64)
             got2 = np.asarray(M2.vars["x"].value, np.float64)
             if not np.allclose(got2, img2, rtol=1e-9 if x64 else 2e-5, atol=1e-9 if x64 else 1e-6):
